@@ -69,6 +69,10 @@ Init ==
         /\ InitWith(p, b, m, a)
 
 (* next(schedule) returns a delay.  The delay is the rational enclosed by dlo..dhi. *)
+(* Every item counts towards the attempt limit, whichever branch of the generator   *)
+(* produced it (the regular one, the OverflowError handler at the first index whose *)
+(* 2^i no longer fits a float, or the "overflowed" shortcut after it): a limit that *)
+(* lies beyond that index still yields exactly `attempts` items.                    *)
 Emit(dlo, dhi) ==
     /\ ~stopped
     /\ attempts = None \/ emitted < attempts
